@@ -11,7 +11,7 @@ from ..lib import SegStr
 DETECTORS = ['safe_math_pre_080', 'safe_math_post_080', 'string_errors', 'short_revert_string']
 OPS = ['', '^', '~', '=', '>=', '>', '>= ', '<=']
 PLACEMENTS = ['only', 'experimental_before', 'abicoder_before', 'both_before', 'experimental_after', 'before_and_after',
-              'after_contract']
+              'after_contract', 'versioned_experimental_before', 'versioned_experimental_after']
 USING = ['contract', 'file', 'none', 'other_library', 'qualified']
 
 
@@ -44,6 +44,7 @@ def make_file(b, op, placement, using, strlen, tag=''):
     sp = b.pragma('solidity', value)
     ex = lambda: b.pragma('experimental', 'ABIEncoderV2')
     ab = lambda: b.pragma('abicoder', 'v2')
+    vx = lambda: b.pragma('experimental', '"v0.5.0"')          # an unrelated pragma whose VALUE looks like a full version
     lib = {'contract': 'SafeMath', 'file': 'SafeMath', 'other_library': 'SafeCast', 'qualified': 'Libs.SafeMath'}.get(using)
     cparts = []
     if using in ('contract', 'other_library', 'qualified'):
@@ -52,7 +53,8 @@ def make_file(b, op, placement, using, strlen, tag=''):
     c = fam.contract_with(b, cparts)
     fparts = [b.supart(b.using(lib, b.ty('Uint', 256)))] if using == 'file' else []
     pre = {'only': [sp], 'experimental_before': [ex(), sp], 'abicoder_before': [ab(), sp], 'both_before': [ex(), ab(), sp],
-           'experimental_after': [sp, ex()], 'before_and_after': [ab(), sp, ex()], 'after_contract': None}[placement]
+           'experimental_after': [sp, ex()], 'before_and_after': [ab(), sp, ex()], 'after_contract': None,
+           'versioned_experimental_before': [vx(), sp], 'versioned_experimental_after': [sp, vx()]}[placement]
     if pre is None:
         parts = [ex()] + fparts + [c, sp]
     else:
